@@ -12,6 +12,7 @@ V == Lit(S("?"))      \* placeholder: replaced by the line number of its stateme
 Names2 == {"a", "b"}
 Simple == { SVar(n, V) : n \in Names2 } \cup { SVar(n, None) : n \in Names2 }
           \cup { SExpr(Asg(n, V)) : n \in Names2 } \cup { SPrint(Id(n)) : n \in Names2 }
+          \cup { SVar(n, Bin("+", Id(m), V)) : n \in Names2, m \in Names2 }     \* the initialiser is evaluated before the name is bound
 CallF == SExpr(Call(Id("f"), <<>>))
 Once(body) == SBlock(<< SVar("q", Lit(N(0))),
                         SWhile(Bin("<", Id("q"), Lit(N(1))), SBlock(<<SExpr(Asg("q", Bin("+", Id("q"), Lit(N(1)))))>> \o body)) >>)
@@ -76,7 +77,7 @@ Next == SemNext
 
 RECURSIVE Shape(_)
 ShapeSeq(ss) == IF ss = <<>> THEN "" ELSE Shape(ss[1]) \o (IF Len(ss) > 1 THEN "," ELSE "") \o (IF Len(ss) > 1 THEN Shape(SBlock(Tail(ss))) ELSE "")
-Shape(t) == CASE t.k = "var" -> (IF IsNone(t.c[1]) THEN "U" ELSE "D") \o t.name
+Shape(t) == CASE t.k = "var" -> (IF IsNone(t.c[1]) THEN "U" ELSE IF t.c[1].k = "bin" THEN "I" ELSE "D") \o t.name
               [] t.k = "expr" -> (IF t.c[1].k = "asg" THEN "A" \o t.c[1].name ELSE "C")
               [] t.k = "print" -> "R" \o t.c[1].name
               [] t.k = "fun" -> "fun"
@@ -89,7 +90,7 @@ EmitInv == (EmitOn /\ Final) =>
    Emit([fam |-> "scope", cls |-> Cls(pid), key |-> "scope#" \o IntStr(pid), pid |-> pid,
          toks |-> Compact(Yield(MinParen(P))), stdin |-> stdin, repl |-> repl,
          status |-> status, why |-> why, out |-> out, diags |-> diags, natlog |-> natlog, steps |-> steps])
-OnlyScopeErrors == status = "error" => diags[1].kind \in {"undef", "redeclare"}
+OnlyScopeErrors == status = "error" => diags[1].kind \in {"undef", "redeclare", "operand"}
 (* a block, loop or call that has finished leaves the current scope as it found it *)
 ScopeRestored == (ctl.m = "done" /\ kont # <<>> /\ Head(kont).f = "seq" /\ Head(kont).p = <<>>) => cur = 2
 =============================================================================
